@@ -12,6 +12,7 @@ import time
 from fractions import Fraction
 import z3
 from symtorch import poly as P
+from symtorch.poly import Poly
 
 GRID_BITS = 80
 GRID = 1 << GRID_BITS
@@ -222,6 +223,14 @@ class Solver:
         lin = d.is_linear()
         if not lin:
             st.nonlinear += 1
+            if not with_defs and not self.path:
+                # nlsat can spend unbounded time looking for a model of a dense multivariate polynomial: first let the
+                # solver decide the query restricted to a few lines through the box (a model there is a model of the query)
+                got = self._line_search(d, tau)
+                if got is not None:
+                    st.sat += 1
+                    st.solver_s += time.time() - t0
+                    return 'sat', got
         self._ensure_vars(d, with_defs)
         self.s.push()
         try:
@@ -337,6 +346,43 @@ class Solver:
             else:
                 break
         return 'sat', model
+
+    def _line_search(self, d, tau, tries=6):
+        import random
+        rnd = random.Random(12345)
+        atoms = sorted(d.atoms())
+        boxes = {}
+        for a in atoms:
+            b = self.bound(a)
+            if b is None or b[0] is None or b[1] is None:
+                return None
+            boxes[a] = b
+        tvar = P.ATOMS.new('free', ('line', Fraction(1)))
+        for k in range(tries):
+            mapping = {}
+            for a in atoms:
+                lo, hi = boxes[a]
+                sgn = rnd.choice((-1, 1)) if k else 1
+                off = Fraction(rnd.randint(-3, 3), 8) if k > 1 else Fraction(0)
+                mid = (lo + hi) / 2; half = (hi - lo) / 2
+                # affine map of t in [-1,1] into the atom's box
+                mapping[a] = Poly.const(mid + half * off * Fraction(1, 2)) + Poly.var(tvar) * (half * sgn * Fraction(1, 2) if k > 1 else half * sgn)
+            u = d.subst(mapping)
+            sv = z3.Solver(); sv.set('timeout', 3000)
+            t = z3.Real('t')
+            sv.add(t >= -1, t <= 1)
+            parts = []
+            for mono, c in u.t.items():
+                term = z3.RealVal(c)
+                for _ in mono:
+                    term = term * t
+                parts.append(term)
+            e = z3.Sum(parts) if parts else z3.RealVal(0)
+            sv.add(z3.Or(e > z3.RealVal(Fraction(tau)), e < -z3.RealVal(Fraction(tau))))
+            if str(sv.check()) == 'sat':
+                tv = _z3_to_frac(sv.model().eval(t, model_completion=True))
+                return {a: mapping[a].evalq({tvar: tv}) for a in atoms}
+        return None
 
     def emit_def_scoped(self, a):
         # definitions are added inside the current push scope; forget them afterwards
